@@ -438,7 +438,8 @@ func runChild(t *testing.T, bin, tmp string, ch childSpec, res *results, reports
 		prefix = fmt.Sprintf("race-p%d/s%d/", ch.Procs, ch.Shard)
 	}
 	remaining := ch.Cases
-	for attempt := 0; (len(remaining) > 0 || ch.Shard == 99) && attempt < 6; attempt++ {
+	crashedWith := map[string]int{}
+	for attempt := 0; (len(remaining) > 0 || ch.Shard == 99) && attempt < 10; attempt++ {
 		dir := filepath.Join(tmp, fmt.Sprintf("child-%s-%d", strings.ReplaceAll(prefix, "/", "_"), attempt))
 		_ = os.MkdirAll(dir, 0o755)
 		spec := ch
@@ -511,13 +512,18 @@ func runChild(t *testing.T, bin, tmp string, ch childSpec, res *results, reports
 			Witness: map[string]any{"build": mode, "active_cases": active, "log_tail": tail(lg, 6000)}})
 		res.mu.Unlock()
 		res.count("child_process_crashes", 1)
-		// carry on with what had not been started; the cases active at the crash are spent
+		// carry on: finished cases are done; a case that was active at the crash gets one more chance (the
+		// crash may have been another case's) and is spent the second time
 		done := map[string]bool{}
-		for _, n := range active {
-			done[n] = true
-		}
 		for _, n := range ended {
 			done[n] = true
+		}
+		for _, n := range active {
+			crashedWith[n]++
+			if crashedWith[n] >= 2 {
+				done[n] = true
+				res.count("cases_spent_in_crashes", 1)
+			}
 		}
 		var next []string
 		for _, n := range remaining {
@@ -525,7 +531,7 @@ func runChild(t *testing.T, bin, tmp string, ch childSpec, res *results, reports
 				next = append(next, n)
 			}
 		}
-		if len(next) == len(remaining) && len(next) > 0 {
+		if len(active) == 0 && len(next) == len(remaining) && len(next) > 0 {
 			next = next[1:] // no progress information: make sure the loop ends
 		}
 		remaining = next
